@@ -265,7 +265,10 @@ class Module:
         f = self.mod.funcs.get("d_" + opname)
         if f is None:
             raise common.AnalysisBroken("driver function d_%s missing" % opname)
-        return self.interp.run(f.name)
+        outs = self.interp.run(f.name)
+        if not outs and getattr(self.interp, "truncated", None):
+            raise absint.Limit("every path of %s runs round a loop of the interpreted layer more than the unrolling bound: %s" % (opname, sorted(self.interp.truncated)[:2]))
+        return outs
 
     def objspecs(self, op):
         specs = {}
